@@ -533,6 +533,30 @@ def rule_integral_double_printing(ctx, rep, rid: str) -> None:
                 n_sites += 1
                 key = f"{f.qual}:{n.func.id}({v})"
                 rep.bad(rid, key, f"{f.qual} formats the Number `{v}` with the host's {n.func.id}(): 1e-7 prints as 1e-07, exponent notation starts at 1e16 instead of 1e21, integral floats print a trailing .0", f"{f.module.rel}:{n.lineno}")
+    # host str()/repr()/f-string of a value read out of a script container (an element of a typed array, an array
+    # element, a property): it may be a float, and script text of a script value comes from to_string
+    readers = {m for ci in ctx.tree.mod("values").classes.values() for m in ci.methods if m in ("get", "get_index", "get_element")}
+    for f in ctx.tree.funcs:
+        if isinstance(f.node, ast.Lambda) or f.module.name not in ("vm", "values", "context"):
+            continue
+        for n in f.own_nodes():
+            arg = None
+            if isinstance(n, ast.Call) and isinstance(n.func, ast.Name) and n.func.id in ("str", "repr") and len(n.args) == 1:
+                arg = n.args[0]
+            elif isinstance(n, ast.FormattedValue):
+                arg = n.value
+            if not (isinstance(arg, ast.Call) and isinstance(arg.func, ast.Attribute) and arg.func.attr in readers):
+                continue
+            up = n
+            in_raise = False
+            while up is not None and up is not f.node:
+                if isinstance(up, ast.Raise):
+                    in_raise = True
+                up = getattr(up, "_parent", None)
+            if in_raise:
+                continue  # the text of an error message, not a script value
+            n_sites += 1
+            rep.bad(rid, f"{f.qual}:host-text-of-{norm(arg)[:40]}", f"{f.qual} turns the script value `{norm(arg)[:50]}` into text with the host's str()/format: a float element prints as nan/inf/1e-07/1.0 where ECMAScript prints NaN/Infinity/1e-7/1; script text of a script value comes from to_string", f"{f.module.rel}:{n.lineno}")
     rep.ok(rid, "number-text-paths", {"sites_examined": n_sites})
     vals = ctx.tree.mod("values")
     ts = vals.functions.get("to_string")
@@ -623,3 +647,41 @@ def rule_no_read_after_write_between_views(ctx, rep, rid: str) -> None:
             else:
                 rep.ok(rid, key)
     rep.ok(rid, "typed-array-copy-loops", {"examined": n})
+
+
+# ---- array elements become text through ToPrimitive -----------------------------------------------------
+def rule_array_elements_to_text(ctx, rep, rid: str) -> None:
+    """values.to_string knows no objects (it answers '[object Object]' for every one of them, arrays included).
+    Where an Array native turns ELEMENTS into text (join, toString, the default sort order), an element that is an
+    object has to go through the VM's ToPrimitive-aware conversion first."""
+    rep.rule(rid, "in the Array natives, the plain to_string of the values module is applied to an array element (a loop variable over the elements, or a parameter of a local helper/comparator that receives elements) only where the element is known not to be a JSObject: nested arrays are joined, objects asked for their own toString", floor=2)
+    from ..util import atoms, known_conditions
+
+    n = 0
+    for f in ctx.tree.funcs:
+        if isinstance(f.node, ast.Lambda):
+            continue
+        anc = [g.name for g in _ancestors(f)]
+        if not any(a in ("_make_array_method", "_create_array_constructor") for a in anc):
+            continue
+        if f.node.args.vararg is not None:
+            continue  # the natives themselves convert ARGUMENTS; elements reach the helpers below
+        params = {a.arg for a in f.node.args.args}
+        elems = set(params)
+        for x in f.own_nodes():
+            if isinstance(x, (ast.For, ast.comprehension)) and "_elements" in norm(x.iter) and isinstance(x.target, ast.Name):
+                elems.add(x.target.id)
+        for c in f.own_nodes():
+            if not (isinstance(c, ast.Call) and isinstance(c.func, ast.Name) and c.func.id == "to_string" and len(c.args) == 1 and isinstance(c.args[0], ast.Name) and c.args[0].id in elems):
+                continue
+            v = c.args[0].id
+            n += 1
+            key = f"{f.qual}:to_string({v})"
+            ats = [(norm(a), p) for t, pol in known_conditions(c, f.node) for a, p in atoms(t, pol)]
+            ok = any(a.startswith(f"isinstance({v}, ") and "JSObject" in a and not p for a, p in ats) or any(a.startswith(f"isinstance({v}, ") and "JS" not in a and p for a, p in ats)
+            if ok:
+                rep.ok(rid, key)
+            else:
+                rep.bad(rid, key, f"{f.qual} converts the array element `{v}` with the plain to_string, which answers '[object Object]' for every object: a nested array or an object with its own toString is not asked for its text ([[2],[1]].sort() stays unsorted, [[1,2]].join() loses the inner elements)", f"{f.module.rel}:{c.lineno}")
+    if n < 2:
+        raise AnalysisError(f"{rid}: only {n} element-to-text conversion(s) found in the Array natives")
